@@ -59,6 +59,9 @@ def sp_host(cfg):
         b = self.base
         return b * 10 if isinstance(b, int) else b
 
+    if cfg.get("no_getter"):
+        fget = None  # declared without a getter: reads fail until a value has been assigned (an override), then return it
+
     def fset(self, v):
         self.base = v
 
@@ -128,6 +131,8 @@ def run_sp(ctx, case):
             exp_exc, exp = None, None
             if (cfg["overridable"] or cfg["cache"]) and slot is not None:
                 exp = slot[1]
+            elif cfg.get("no_getter"):
+                exp_exc = AttributeError
             else:
                 v = base * 10 if isinstance(base, int) else base
                 if managed:
@@ -374,6 +379,8 @@ def sp_configs():
     for host in ("plain", "spec_managed"):
         for o, c, s, d in itertools.product([False, True], repeat=4):
             yield {"host": host, "overridable": o, "cache": c, "setter": s, "deleter": d, "form": "decorator"}
+    for host in ("plain", "spec_unmanaged", "spec_managed"):
+        yield {"host": host, "overridable": True, "cache": False, "setter": False, "deleter": False, "no_getter": True}
     for host in ("spec_unmanaged", "spec_managed"):
         # (no custom deleter here: invalidation deletes the property, and a deleter that itself mutates state would be
         # invalidated by its own effect - unbounded recursion by construction of the example, not a protocol question)
@@ -413,13 +420,16 @@ def run_unit(ctx, unit):
     kind = unit[0]
     if kind == "sp":
         cfg = list(sp_configs())[unit[1]]
-        for n in range(1, b["sp_len"] + 1):
+        # the variant families (decorator-built, invalidated_by="*", getter-less, inherited / subclass-prepared hosts) repeat the
+        # protocol of the basic ones: one letter shorter keeps the enumeration of the basic family the dominant cost
+        secondary = any(k in cfg for k in ("form", "star", "no_getter")) or cfg["host"] in ("inh_managed_prep", "mixin_managed", "plain_sub_prep_only", "spec_sub_prep_only")
+        for n in range(1, b["sp_len"] + (0 if secondary else 1)):
             for seq in itertools.product(LETTERS_SP, repeat=n):
                 run_sp(ctx, {"kind": "sp", "config": cfg, "ops": list(seq)})
         ctx.count("sp_configs_exhausted")
     elif kind == "cp":
         cfg = list(cp_configs())[unit[1]]
-        for n in range(1, b["cp_len"] + 1):
+        for n in range(1, b["cp_len"] + (0 if "form" in cfg else 1)):
             for seq in itertools.product(LETTERS_CP, repeat=n):
                 run_cp(ctx, {"kind": "cp", "config": cfg, "ops": list(seq)})
         ctx.count("cp_configs_exhausted")
